@@ -520,7 +520,7 @@ def check_normals(case, domain, pts, P, out, stats, h=2e-3):
     solid = solid_of(dom)
     if solid is None or P is None or not hasattr(domain, "normal") or len(pts.as_tensor) == 0:
         return
-    if any(k_ in ("transl", "rot", "prod", "poly", "pt") for k_ in G.kinds(solid)):
+    if any(k_ in ("transl", "rot", "prod", "pt") for k_ in G.kinds(solid)):
         return  # C06 speaks of primitives and Boolean combinations of primitives
     sp_names = [v for v, _ in G.space(dom)]
     rows = len(pts.as_tensor)
@@ -567,6 +567,8 @@ def check_normals(case, domain, pts, P, out, stats, h=2e-3):
     bad = regular & ~((mp < 0) & (mm > 0))
     # near corners/junctions the step test is only meaningful in its weak form:
     # along the normal must not be *more* inside than against it
+    # (polygon corners may be reflex: there the step along a single edge normal stays on the
+    # boundary, so polygon corners are not judged)
     is_prim = solid["k"] in ("par", "tri", "iv", "circ", "sph")
     badc = corner & is_prim & ~((mp < 0) & (mm > mp))
     stats["normals_judged"] = stats.get("normals_judged", 0) + int(regular.sum())
